@@ -584,7 +584,7 @@ func finish(chk *Check, tier string, seed int, start time.Time, nspecs int, a *a
 			continue
 		}
 		// re-execute to make sure the violation is reproducible before it is believed
-		if os.Getenv("VERIF_NO_RECHECK") == "" && v.Class != "crash" {
+		if os.Getenv("VERIF_NO_RECHECK") == "" && v.Class != "crash" && v.Class != "data-race" { // (a race report of the free-running auxiliary pass is not deterministic)
 			if !reproduces(chk, tier, seed, v, 3) {
 				fmt.Fprintf(os.Stderr, "HARNESS-ERROR: violation %s class=%s did not reproduce identically; not reported\n", chk.ID, v.Class)
 				return 2
